@@ -394,6 +394,15 @@ def unmarshalIds : List Nat → List Seg
 
 def unmarshal (bs : List Nat) : Option (List Seg) := (words (bs.length + 1) bs).map unmarshalIds
 
+/-- `SerializedSegment.ToSegment` AS IT IS (DESIGN §5 F3): the loop reads `s.Edges[nodeIndex-1]` whenever
+`nodeIndex < len(s.Edges)`, i.e. already at `nodeIndex = 0` — an index-out-of-range panic (`none`) for every
+input that has an edge. Without edges the cursor never advances and keeps the last node. -/
+def toSegment (nodes edges : List Nat) : Option (List Seg) :=
+  match nodes, edges with
+  | [], _ => some [⟨0, 0⟩]
+  | _ :: _, _ :: _ => none
+  | n :: ns, [] => some [⟨(n :: ns).getLastD 0, 0⟩]
+
 /-! ### TSBFS / TSDFS (traversal.go) over `EachAdjacentEdge` -/
 
 /-- one traversal step shared by TSBFS (`bfs = true`: `PopFront`) and TSDFS (`PopBack`).
